@@ -212,15 +212,24 @@ def _stack_table(model, fn, tokname, stack_pred0, r):
                     return val_text(_S().visit(_copy.deepcopy(g.node.body[0].value)))
         return unparse(e)
 
-    def actions(stmts, env):
+    def actions(stmts, env, top_level=True):
+        out = _actions(stmts, env)
+        return [a for a in out if a[0] != 'RET']
+
+    def _actions(stmts, env):
         out = []
         for s in stmts:
+            if out and out[-1][0] == 'RET':
+                break
+            if isinstance(s, ast.Return) and s.value is None:
+                out.append(('RET', ''))
+                break
             if isinstance(s, ast.If):
                 try:
                     c = _ev(s.test, env)
                 except _Stop:
                     return [('?', unparse(s.test))]
-                out += actions(s.body if c else s.orelse, env)
+                out += _actions(s.body if c else s.orelse, env)
             elif isinstance(s, ast.Expr) and isinstance(s.value, ast.Call) \
                     and isinstance(s.value.func, ast.Attribute) and stack_pred(s.value.func.value):
                 m = s.value.func.attr
@@ -271,11 +280,34 @@ def _stack_table(model, fn, tokname, stack_pred0, r):
         if isinstance(e, ast.BoolOp):
             vals = [_ev(x, env) for x in e.values]
             return all(vals) if isinstance(e.op, ast.And) else any(vals)
+        if isinstance(e, ast.Compare) and len(e.ops) == 1 and isinstance(e.ops[0], (ast.Eq, ast.NotEq)) \
+                and (tokname + '.lang') in (unparse(e.left), unparse(e.comparators[0])):
+            # the token switches to the language that is current anyway (proposition `same`)
+            uses_same.append(e)
+            return env['same'] == isinstance(e.ops[0], ast.Eq)
         raise _Stop(unparse(e))
+    uses_same = []
     table = {}
     for back, hard, deep in itertools.product((True, False), repeat=3):
-        env = {'back': back, 'hard': hard, 'deep': deep}
+        env = {'back': back, 'hard': hard, 'deep': deep, 'same': False}
         table[(back, hard, deep)] = actions([top], env)
+    if uses_same:
+        # a token that names the current language is treated like any other, except that replacing the top by
+        # itself may be skipped: a soft push must still push (its closing token pops), a pop must still pop
+        for back, hard, deep in itertools.product((True, False), repeat=3):
+            env = {'back': back, 'hard': hard, 'deep': deep, 'same': True}
+            acts = actions([top], env)
+            ref = table[(back, hard, deep)]
+            kinds = [a[0] for a in acts]
+            rk = [a[0] for a in ref]
+            if kinds != rk and not (hard and not back and kinds == []):
+                r.fail(uses_same[0], '%s: a token that switches to the language that is current already is '
+                       'handled differently (%s instead of %s for back=%s hard=%s): a soft switch that is not '
+                       'pushed is popped all the same by its closing token, and the stacks of parser and '
+                       'splitter run apart' % (fn.qname, kinds or ['NONE'], rk or ['NONE'], back, hard),
+                       witness='\\begin{otherlanguage}{german} A \\foreignlanguage{german}{B} C\\footnote{D} '
+                               '\\end{otherlanguage}')
+                break
     return table
 
 
